@@ -401,6 +401,15 @@ def realnet_stalls(chk):
     return cases, descs
 
 
+_KLASS = []
+
+
+def _scripted_job(case):
+    if not _KLASS:
+        _KLASS.append(fault_work_class())
+    return execute_scripted(case, _KLASS[0])
+
+
 def _pair_job(job):
     role, script, how = job
     return run_pair(role, script, how, True)
@@ -420,10 +429,8 @@ def run(chk):
     # ---- (i) scripted works on the real Threadless -----------------------------------------------------------------
     behs, g = generate(4000 if quick else 20000, chk.seed * 3 + 1)
     chk.add_tlc('Executor -simulate', g)
-    klass = fault_work_class()
-    traces = []
-    for n, case in enumerate(behs):
-        traces.append({'id': n + 1, 'pending': case['pending'], 'steps': execute_scripted(case, klass)})
+    from harness.common import pmap
+    traces = [{'id': n + 1, 'pending': case['pending'], 'steps': steps} for n, (case, steps) in enumerate(zip(behs, pmap(_scripted_job, behs, chunksize=32)))]
     results, rej = tlc.run_sharded('TraceExecutor', 'TraceExecutor.cfg', traces, shards=16, timeout=900)
     m = tlc.Merged(results)
     chk.add_tlc('TraceExecutor (%d executions of the real Threadless)' % len(traces), m)
